@@ -28,6 +28,11 @@ func init() {
 
 func runC19(c *Ctx) {
 	c.Trust("go/ssa", "encoding/json", "net/http")
+	// writer and client agree on the JSON keys of the response, its results and the API error
+	wireNamesAsReference(c, "C19.W4-wire-names", "find/model.FindResponse", "find/model.MultihashResult", "find/model.ProviderResult", "find/model.EncryptedMultihashResult", "apierror.ErrorMessage")
+	c.Floor("C19.W4-wire-names", 5)
+	legacyPathTranscoder(c, "C19.W4-addresses-read-back")
+	c.Floor("C19.W4-addresses-read-back", 1)
 	const rw = "rwriter"
 	// ---- W1 --------------------------------------------------------------------------------
 	nw := c.Func(rw, "New")
@@ -537,6 +542,54 @@ func runC19(c *Ctx) {
 			}
 			fn := lines.Head.Parent()
 			c.Check(!bad.IsValid(), "C19.W6-accept-header", c.short(fn.String())+" › every Accept value parsed", fn.Pos(), "the loop over the header's values ends only when they are exhausted or with the invalid-header error", "the loop over the Accept header's values is left early (at "+c.pos(bad)+") once a media type is settled: a malformed value further on is no longer answered with 400, and a later */* no longer counts")
+		}
+	}
+	// …and every element of a value: when a header value is walked with strings.Cut instead of split up front, the
+	// walk goes on as long as Cut found a separator — not as long as something is left (a trailing empty element,
+	// "application/json,", is then never parsed and the malformed list is accepted)
+	for _, f := range c.Funcs("rwriter") {
+		for _, cs := range c.Calls(f.SSA, Call("strings.Cut", Any(), Const(`","`))) {
+			call, isCall := cs.In.(*ssa.Call)
+			if !isCall {
+				continue
+			}
+			var loop *natLoop
+			for _, l := range naturalLoops(cs.Fn) {
+				if l.Body[call.Block()] && (loop == nil || len(l.Body) < len(loop.Body)) {
+					loop = l
+				}
+			}
+			if loop == nil {
+				continue
+			}
+			byFound := true
+			nExit := 0
+			for u := range loop.Body {
+				iff, isIf := u.Instrs[len(u.Instrs)-1].(*ssa.If)
+				if !isIf || u != loop.Head {
+					continue // (an early break once both media types are settled is the original's too)
+				}
+				leaves := false
+				for _, v := range u.Succs {
+					if !loop.Body[v] {
+						if ret, isRet := v.Instrs[len(v.Instrs)-1].(*ssa.Return); isRet && len(ret.Results) > 0 && c.RetX(ret, len(ret.Results)-1).Op != "nil" {
+							continue // the invalid-header error
+						}
+						leaves = true
+					}
+				}
+				if !leaves {
+					continue
+				}
+				nExit++
+				cond := c.E(iff.Cond)
+				if !cond.Contains(func(y *X) bool {
+					return y.Op == "extract" && y.Name == "2" && len(y.Args) == 1 && y.Args[0].V == ssa.Value(call)
+				}) {
+					byFound = false
+				}
+			}
+			c.Check(byFound && nExit > 0, "C19.W6-accept-header", c.short(cs.Fn.String())+" › every element of a value parsed", call.Pos(), "the element walk continues while strings.Cut finds a separator", "the walk over the elements of an Accept value stops when nothing is left rather than when no separator was found: a trailing empty element is not parsed and a malformed list is accepted")
 		}
 	}
 	c.Floor("C19.W6-accept-header", 8)
